@@ -53,6 +53,11 @@ CHECKS.update({
             "the aggregation step; metamorphic plane-independence relation",
             "SAD/census exact, ZNCC 1e-4; masks, subpix, distances 1-8, intensities 1-200", "3 C11"),
 })
+CHECKS.update({
+    "C12": ("reference-model monitor (formulas of cost_volume_confidence.rst with an epsilon bracket on every threshold) on "
+            "the datasets captured around every confidence step; metamorphic comparison with the pipeline without the steps",
+            "four confidence classes on synthetic volumes (min/max, NaN, ties), pipelines with 0-4 steps and suffixes", "3 C12"),
+})
 NOTES = {}
 
 def main():
